@@ -458,4 +458,10 @@ theorem discardedShootSample_eq :
     Gen.GrpcStatus.discardedTag = Model.C10.discardedTag ∧ Gen.GrpcStatus.discardedNet = Model.C10.discardedNet ∧
     Model.C10.discardedTag = Spec.C10.discardedTag ∧ Model.C10.discardedNet = Spec.C10.discardedNet := by decide
 
+/-- `(*Waiter).IsSlowDown`: false once the context is done, else `overdueDuration >= MaxOverdueDuration`, and the threshold is
+two seconds (`Model.C10.isSlowDown`, `maxOverdueNanos`) -/
+theorem isSlowDown_eq :
+    Gen.GrpcStatus.isSlowDownFacts = ["done:false", "live:recv.overdueDuration >= MaxOverdueDuration"] ∧
+    Gen.GrpcStatus.maxOverdueNanos = Model.C10.maxOverdueNanos := by decide
+
 end Pandora.Bridge.GrpcStatus
